@@ -329,6 +329,11 @@ def run(ctx):
                             ctx.bad("R04.4", ui, "regex-literal-wellformed", "the validation regex %r is malformed (%s): std::regex_error at run time" % (a0["v"], ex), (ui, n.get("ln")))
     ctx.need("R04.4", "regex literals in user_input's constructor", nlit, 1)
     ctx.assume("allocation failure, stack exhaustion and regex_error of the complexity/stack kind inside std::regex_match are outside the claim")
+    # ---- R04.7: what is raised can propagate
+    ctx.rule("R04.7", "no function on the options path (parser, option kinds, token, optional, string helpers, env::get) is declared noexcept and reaches a raise")
+    from .common import rule_noexcept
+    rule_noexcept(ctx, "R04.7", lambda f: "/options/" in f.file or f.file.endswith(("lang/optional.hpp", "lang/string.hpp", "env/get.cpp", "env/get.hpp")),
+                  "bad user input has to surface as parsing_error", minimum=40)
     # ---- R04.5: no spurious user-input error - two structural necessary conditions of "exactly when a documented condition holds"
     ctx.rule("R04.5", "no spurious error: every parse starts from emptied value state (R14.2) and an option claims a token only under its own name or letter (R01.5, R01.7, R01.8)")
     if ctx.prop == "C04" and not getattr(ctx, "_sharing", False):
